@@ -459,6 +459,57 @@ type BulkReq struct {
 	Doc    string `json:"doc,omitempty"`
 	Sleep  string `json:"sleep,omitempty"`
 	Raw    string `json:"raw,omitempty"` // raw payload text for malformed payloads
+	// Key selects the key of sign / verify requests: 0 none (the stream's
+	// default private key; no public key), 1 the default key, 2 another key
+	Key int `json:"key,omitempty"`
+	// Built sends the calculated envelope of the example instead of its source
+	Built bool `json:"built,omitempty"`
+}
+
+var builtEnv = map[string][]byte{}
+
+// builtOf gives the calculated (unsigned) envelope of the example.
+func builtOf(name string) []byte {
+	signedMu.Lock()
+	defer signedMu.Unlock()
+	if b, ok := builtEnv[name]; ok {
+		return b
+	}
+	var out []byte
+	if s := srcByName(name); s != nil {
+		if env, err := corpus.EnvelopeOf(s.json, false); err == nil {
+			out, _ = json.Marshal(env)
+		}
+	}
+	builtEnv[name] = out
+	return out
+}
+
+var otherKey = dsig.NewES256Key()
+
+var (
+	signedMu  sync.Mutex
+	signedEnv = map[string][]byte{}
+)
+
+// signedOf gives the example built and signed with the default key (made once
+// per process: signatures are random, the verdict on them is not).
+func signedOf(name string) []byte {
+	signedMu.Lock()
+	defer signedMu.Unlock()
+	if b, ok := signedEnv[name]; ok {
+		return b
+	}
+	var out []byte
+	if s := srcByName(name); s != nil {
+		if env, err := corpus.EnvelopeOf(s.json, false); err == nil {
+			if env.Sign(signKey) == nil {
+				out, _ = json.Marshal(env)
+			}
+		}
+	}
+	signedEnv[name] = out
+	return out
 }
 
 func (r BulkReq) payload() json.RawMessage {
@@ -470,12 +521,39 @@ func (r BulkReq) payload() json.RawMessage {
 		out, _ := json.Marshal(r.Sleep)
 		return out
 	case "build", "validate", "replicate":
-		s := srcByName(r.Doc)
-		out, _ := json.Marshal(map[string]any{"data": s.json})
+		data := srcByName(r.Doc).json
+		if r.Built {
+			data = builtOf(r.Doc)
+		}
+		out, _ := json.Marshal(map[string]any{"data": data})
 		return out
 	case "correct":
+		data := srcByName(r.Doc).json
+		if r.Built {
+			data = builtOf(r.Doc)
+		}
+		out, _ := json.Marshal(map[string]any{"data": data, "options": []byte(`{"type":"credit-note","reason":"r"}`)})
+		return out
+	case "sign":
 		s := srcByName(r.Doc)
-		out, _ := json.Marshal(map[string]any{"data": s.json, "options": []byte(`{"type":"credit-note","reason":"r"}`)})
+		m := map[string]any{"data": s.json}
+		switch r.Key {
+		case 1:
+			m["privatekey"] = signKey
+		case 2:
+			m["privatekey"] = otherKey
+		}
+		out, _ := json.Marshal(m)
+		return out
+	case "verify":
+		m := map[string]any{"data": signedOf(r.Doc)}
+		switch r.Key {
+		case 1:
+			m["publickey"] = signKey.Public()
+		case 2:
+			m["publickey"] = otherKey.Public()
+		}
+		out, _ := json.Marshal(m)
 		return out
 	case "schema":
 		return json.RawMessage(`{"path":"bill/invoice"}`)
@@ -616,6 +694,7 @@ func judgeBulk(c BulkCase, o *vh.Obs) {
 			o.Failf("bulk:req-id", "the response with seq_id %d carries req_id %q, request %d had %q", res.SeqID, res.ReqID, res.SeqID, req.ReqID)
 			return
 		}
+		o.Class(req.Action + "-" + okText(!res.failed()))
 		wantPayload, wantErr := standalone(req)
 		if wantErr != res.failed() {
 			o.Failf("bulk:outcome", "request %d (%s) %s on its own but %s in the stream", res.SeqID, req.Action, okText(!wantErr), okText(!res.failed()))
@@ -656,7 +735,7 @@ func genBulk(t *rapid.T) BulkCase {
 	loadSources()
 	c := BulkCase{HTTP: rapid.IntRange(0, 7).Draw(t, "http") == 0}
 	n := rapid.IntRange(1, 14).Draw(t, "n")
-	actions := []string{"ping", "sleep", "sleep", "build", "validate", "correct", "replicate", "schema", "regime", "schemas", "nope", "malformed", "keygen"}
+	actions := []string{"ping", "sleep", "sleep", "build", "validate", "correct", "replicate", "sign", "verify", "verify", "schema", "regime", "schemas", "nope", "malformed", "keygen"}
 	for i := 0; i < n; i++ {
 		r := BulkReq{Action: rapid.SampledFrom(actions).Draw(t, "action")}
 		switch rapid.IntRange(0, 5).Draw(t, "idkind") {
@@ -672,6 +751,10 @@ func genBulk(t *rapid.T) BulkCase {
 			r.Sleep = rapid.SampledFrom([]string{"0ms", "1ms", "5ms", "20ms", "40ms", "bogus"}).Draw(t, "sleep")
 		case "build", "validate", "correct", "replicate":
 			r.Doc = sources[rapid.IntRange(0, len(sources)-1).Draw(t, "doc")].name
+			r.Built = r.Action != "build" && rapid.IntRange(0, 3).Draw(t, "built") > 0
+		case "sign", "verify":
+			r.Doc = sources[rapid.IntRange(0, len(sources)-1).Draw(t, "doc")].name
+			r.Key = rapid.IntRange(0, 2).Draw(t, "key")
 		case "malformed":
 			r.Action = rapid.SampledFrom([]string{"build", "verify", "sleep", "schema"}).Draw(t, "malaction")
 			r.Raw = rapid.SampledFrom([]string{`"x"`, `[]`, `{"data":5}`, `null`, `{"data":"!!"}`}).Draw(t, "raw")
@@ -687,7 +770,7 @@ func genBulk(t *rapid.T) BulkCase {
 func init() {
 	vh.OnExit(goblexec.Stop)
 	vh.Describe(
-		"Workload plans: 8-60 tasks (operation in {parse, calculate, validate, sign+verify, correct, replicate, options-schema} on a document) over a small pool of documents drawn from every example plus cross pairs (one invoice per regime listing each registered addon), run by 2-16 goroutines behind a start barrier with GOMAXPROCS in {1,2,4,16} and optional yields; plus a sweep running every document x {calculate, validate, correct, options-schema}. Oracles: (1) the race detector (binary built with -race; reports are read from the detector's log), (2) every task's result equals the sequential baseline (identifiers, digests, dates and signatures masked), (3) a deep fingerprint of every registered regime / addon / catalogue / extension / currency definition - including the spare capacity of slices - is identical before and after. Bulk streams: 1-14 mixed requests (ping, sleep with skewed latencies, build, validate, correct, replicate, schema, regime, schemas, unknown action, malformed payloads, duplicate and empty req_ids, streams ending in garbage) through cli.Bulk in process and POST /bulk of a -race build of gobl serve: one response per request with its req_id and 1-based seq_id, payload equal to the standalone operation, exactly one final marker, last, with seq_id n+1. Non-trivial: >= 2 goroutines, or >= 2 requests in flight.",
+		"Workload plans: 8-60 tasks (operation in {parse, calculate, validate, sign+verify, correct, replicate, options-schema} on a document) over a small pool of documents drawn from every example plus cross pairs (one invoice per regime listing each registered addon), run by 2-16 goroutines behind a start barrier with GOMAXPROCS in {1,2,4,16} and optional yields; plus a sweep running every document x {calculate, validate, correct, options-schema}. Oracles: (1) the race detector (binary built with -race; reports are read from the detector's log), (2) every task's result equals the sequential baseline (identifiers, digests, dates and signatures masked), (3) a deep fingerprint of every registered regime / addon / catalogue / extension / currency definition - including the spare capacity of slices - is identical before and after. Bulk streams: 1-14 mixed requests (ping, sleep with skewed latencies, build from the source, validate / correct / replicate of the source or of the calculated envelope, sign with the default or an explicit private key, verify of a pre-signed envelope with the right, another or no public key, schema, regime, schemas, unknown action, malformed payloads, duplicate and empty req_ids, streams ending in garbage) through cli.Bulk in process and POST /bulk of a -race build of gobl serve: one response per request with its req_id and 1-based seq_id, payload equal to the standalone operation, exactly one final marker, last, with seq_id n+1. Non-trivial: >= 2 goroutines, or >= 2 requests in flight.",
 		"schedule exploration is randomised stress: the race detector can miss a race; the definition fingerprint cannot miss a write the workload triggers",
 		"identifiers, digests, dates and signatures are masked when comparing results",
 	)
